@@ -358,6 +358,45 @@ def _alarm(signum, frame):
     raise Hang()
 
 
+class WallGuard(object):
+    """Wall-clock guard around calls into the code under test: after WALL_GUARD seconds (and every WALL_GUARD seconds
+    from then on) `Hang` is raised inside whatever is running.  Main thread only (elsewhere it does nothing)."""
+
+    def __init__(self, seconds=None):
+        self.seconds = seconds or WALL_GUARD
+        self.on = False
+
+    def __enter__(self):
+        if hasattr(signal, 'setitimer'):
+            try:
+                self.old = signal.signal(signal.SIGALRM, _alarm)
+                # (an enclosing alarm of harness/common.py uses the same timer: it is put back on exit)
+                self.prev = signal.setitimer(signal.ITIMER_REAL, self.seconds, self.seconds)
+                self.on = True
+            except ValueError:        # not in the main thread
+                self.on = False
+        return self
+
+    def __exit__(self, *exc):
+        if self.on:
+            signal.setitimer(signal.ITIMER_REAL, 0)
+            signal.signal(signal.SIGALRM, self.old)
+            if self.prev and self.prev[0] > 0:
+                signal.setitimer(signal.ITIMER_REAL, *self.prev)
+            self.on = False
+        return False
+
+
+def guarded(fn, *args, **kwargs):
+    """(result, None) or (None, 'time: ...') when the call did not come back."""
+    t0 = time.time()
+    try:
+        with WallGuard():
+            return fn(*args, **kwargs), None
+    except Hang:
+        return None, 'time: no answer after %.0f s' % (time.time() - t0)
+
+
 def _quiet_unraisable(unraisable):
     # a generator whose `finally` raises when the garbage collector closes it: CPython reports it here
     pass
@@ -376,13 +415,8 @@ def run_real(plan, app_wrapper=None):
     ops = []
     old_hook = sys.unraisablehook
     sys.unraisablehook = _quiet_unraisable
-    use_alarm = hasattr(signal, 'setitimer')
-    if use_alarm:
-        try:
-            old_alarm = signal.signal(signal.SIGALRM, _alarm)
-            signal.setitimer(signal.ITIMER_REAL, WALL_GUARD, WALL_GUARD)
-        except ValueError:        # not in the main thread
-            use_alarm = False
+    guard = WallGuard()
+    guard.__enter__()
     t0 = time.time()
     try:
         def start_response(status, headers, exc_info=None):
@@ -428,9 +462,7 @@ def run_real(plan, app_wrapper=None):
         snapshot = {'next': run.inner_next, 'close': run.inner_close, 'fread': run.file_read, 'fclose': run.file_close,
                     'finally': run.gen_finally, 'released': run.released}
     finally:
-        if use_alarm:
-            signal.setitimer(signal.ITIMER_REAL, 0)
-            signal.signal(signal.SIGALRM, old_alarm)
+        guard.__exit__()
         _cur[0] = None
         try:
             cherrypy.serving.clear()
